@@ -44,11 +44,12 @@ def props_of(aspects):
 
 
 class Mismatch:
-    def __init__(self, aspects, what, model=None, detail=None):
+    def __init__(self, aspects, what, model=None, detail=None, post=False):
         self.aspects = set(aspects)
         self.what = what
         self.model = model
         self.detail = detail or {}
+        self.post = post        # disagreement about the state after the call, not about what it returned
 
     def __repr__(self):
         return 'Mismatch(%s: %s)' % (sorted(self.aspects), self.what)
@@ -157,6 +158,7 @@ class StepHarness:
         self.mod = 'd%d' % idx
         self.L = 'L%d' % idx
         self.ex = Executor(prog, HARNESS_SUMMARIES + SM.TABLE)
+        self.ex.overrides = list(HARNESS_SUMMARIES)
         self.names = d.rs_names()
         tags = read_tags(prog, self.mod, self.names)
         self.ex.discr.update(tags)
@@ -318,7 +320,7 @@ class StepHarness:
             self.explore(s, ref0, ncalls, out, [])
         return out
 
-    def explore(self, st, refst, ncalls, out, trail):
+    def explore(self, st, refst, ncalls, out, trail, depth=0):
         ex = self.ex
         ust_before = st.root()['lx'].f[0].f[self.F['user_state']]
         ndec_before = len(st.aux.get('decisions', ()))
@@ -334,17 +336,23 @@ class StepHarness:
                 self.stats['ref_outcomes'] += 1
                 cond = s2.pc + decs_cond
                 rs2, item, events, info = refout
-                ms = self.compare(s2, val, cond, rs2, item, events, info, ust_before, ndec_before, syms)
+                ms = self.compare(s2, val, cond, rs2, item, events, info, ust_before, ndec_before, syms, refst.ms)
                 for m in ms:
                     m.detail['decisions'] = tuple(s2.aux.get('decisions', ()))
                     m.detail['trail'] = trail + [self.describe(item)]
                     m.detail['start_rule_set'] = self.names[refst.rho]
                 out.extend(ms)
-                if not ms and ncalls > 1 and not (item == ('none',) and rs2.done):
+                post_only = bool(ms) and all(m.post for m in ms)
+                ended = (item == ('none',) and rs2.done)
+                if ((not ms and ncalls > 1) or (post_only and depth < 1)) and not ended:
+                    # either a requested multi-call run, or the call returned the right item but left the
+                    # lexer in a state that is not the reference's boundary state: look one call further
+                    # for the observable consequence (same input, so the total stays within N)
                     s3 = s2.fork()
                     s3.pc = list(cond)
+                    s3.models = []
                     s3.events = []
-                    self.explore(s3, rs2, ncalls - 1, out, trail + [self.describe(item)])
+                    self.explore(s3, rs2, max(ncalls - 1, 1), out, trail + [self.describe(item)], depth + 1)
 
     def describe(self, item):
         return ' '.join(str(x) for x in item)
@@ -406,7 +414,7 @@ class StepHarness:
             return z3.Or(zi(a[0]) != line, zi(a[1]) != col)
         return z3.Or(zi(a[0]) != line, zi(a[1]) != col, zi(a[2]) != byte)
 
-    def compare(self, st, val, cond, rs, item, events, info, ust_before, ndec_before, syms):
+    def compare(self, st, val, cond, rs, item, events, info, ust_before, ndec_before, syms, ms_before=0):
         ex = self.ex
         F = self.F
         out = []
@@ -432,12 +440,14 @@ class StepHarness:
         if any(ends_eof(r.regex) for r in inv_rules) or (got[0] == 'none') != (item[0] == 'none'):
             base_aspects.add('eof')
 
+        in_post = [False]
+
         def mm(aspects, what, extra=None):
             self.stats['queries'] += 1
             m = self.best_model(cond + ([extra] if extra is not None else []))
             if m is None:
                 return
-            out.append(Mismatch(set(aspects), what, m, {'expected': self.describe(item), 'syms': dict(syms)}))
+            out.append(Mismatch(set(aspects), what, m, {'expected': self.describe(item), 'syms': dict(syms)}, post=in_post[0]))
 
         pending = []
 
@@ -448,7 +458,7 @@ class StepHarness:
                 if neq:
                     mm(aspects, what)
                 return
-            pending.append((set(aspects), what, neq))
+            pending.append((set(aspects), what, neq, in_post[0]))
 
         def flush():
             if not pending:
@@ -456,11 +466,11 @@ class StepHarness:
             self.stats['queries'] += 1
             if ex.model(cond + [z3.Or(*[p[2] for p in pending])]) is None:
                 return
-            for aspects, what, neq in pending:
+            for aspects, what, neq, post in pending:
                 self.stats['queries'] += 1
                 m = self.best_model(cond + [neq])
                 if m is not None:
-                    out.append(Mismatch(aspects, what, m, {'expected': self.describe(item), 'syms': dict(syms)}))
+                    out.append(Mismatch(aspects, what, m, {'expected': self.describe(item), 'syms': dict(syms)}, post=post))
         if item[0] == 'abort':
             mm(['match'], 'reference aborted: ' + item[1])
             return out
@@ -473,6 +483,15 @@ class StepHarness:
             if got[0] == 'custom' or exp_kind == 'custom':
                 asp.add('error')
                 asp.add('actions')
+            # which other statements does the wrong item break?
+            evs_ = st.events
+            if len(evs_) != len(events) or any((not g.conc()) or g.v != e_[0] for (g, _, _), e_ in zip(evs_, events)):
+                asp.add('actions')          # an action ran (or did not run) for a match the reference does not select
+            if got[0] == 'tok':
+                # a token that does not start where this call's match started overlaps / reorders lexemes
+                self.stats['queries'] += 1
+                if ex.model(cond + [self.neq_loc(got[2], ms_before, syms, 'byte')]) is not None:
+                    asp.add('loc')
             mm(asp, 'item: implementation %s, reference %s' % (self.got_text(got), self.describe(item)))
             flush()
             return out
@@ -521,6 +540,7 @@ class StepHarness:
                     elif e_ < self.N:
                         sym_check({'actions'}, 'peek() is not the first unconsumed character', zi(peek.f[0]) != self.chars[e_])
         # ---- post-state
+        in_post[0] = True
         inner = st.root()['lx'].f[0]
         stt, ini = inner.f[F['__state']], inner.f[F['__initial_state']]
         ent = self.entries()[rs.rho]
